@@ -61,50 +61,82 @@ namespace {
     std::uint32_t u32( const std::string& s ) { return static_cast< std::uint32_t >( std::stoull( s ) ); }
     std::uint16_t u16( const std::string& s ) { return static_cast< std::uint16_t >( std::stoull( s ) ); }
 
+    // an operation line, parsed once outside the per-configuration template code
+    struct parsed_op
+    {
+        enum { reset, plan, tmo, resched, move, change, bad } kind;
+        std::uint16_t lat, instant; std::uint32_t iv, t; bool flag, ev[ 6 ]; long n;
+    };
+
+    parsed_op parse( const std::vector< std::string >& w )
+    {
+        parsed_op p = parsed_op();
+        p.kind = parsed_op::bad;
+        if ( w[ 0 ] == "reset" ) p.kind = parsed_op::reset;
+        else if ( w[ 0 ] == "plan" )
+        {
+            p.kind = parsed_op::plan; p.lat = u16( w.at( 1 ) ); p.iv = u32( w.at( 3 ) ); p.flag = w.at( 4 ) == "1"; p.instant = u16( w.at( 5 ) );
+            for ( int i = 0; i != 6; ++i ) p.ev[ i ] = w.at( 2 ).at( i ) == '1';
+        }
+        else if ( w[ 0 ] == "tmo" ) { p.kind = parsed_op::tmo; p.iv = u32( w.at( 1 ) ); }
+        else if ( w[ 0 ] == "resched" ) { p.kind = parsed_op::resched; p.flag = w.at( 1 ) == "1"; p.t = u32( w.at( 2 ) ); p.iv = u32( w.at( 3 ) ); }
+        else if ( w[ 0 ] == "move" ) { p.kind = parsed_op::move; p.n = std::stol( w.at( 1 ) ); p.iv = u32( w.at( 2 ) ); }
+        else if ( w[ 0 ] == "change" ) { p.kind = parsed_op::change; p.n = std::stol( w.at( 1 ) ); }
+        return p;
+    }
+
+    struct snapshot { int ret; unsigned counter, channel; std::uint32_t time; std::string skip; };
+
+    struct latency_subject_base : verif::subject
+    {
+        virtual snapshot exec( const parsed_op& ) = 0;
+        std::string op( const std::vector< std::string >& w ) override
+        {
+            const parsed_op p = parse( w );
+            if ( p.kind == parsed_op::bad ) return "BADOP";
+            const snapshot s = exec( p );
+            return std::string( s.ret < 0 ? "-" : s.ret ? "1" : "0" ) + " " + std::to_string( s.counter ) + " " + std::to_string( s.channel )
+                 + " " + std::to_string( s.time ) + " " + s.skip;
+        }
+    };
+
     template < class Config >
-    struct latency_subject : verif::subject
+    struct latency_subject : latency_subject_base
     {
         using state_t = ll::details::peripheral_latency_state< Config >;
         state_t st;
         latency_subject() { st.reset_connection_state(); }
 
-        std::string show( const std::string& ret )
+        snapshot exec( const parsed_op& p ) override
         {
-            return ret + " " + std::to_string( st.connection_event_counter() ) + " " + std::to_string( st.current_channel_index() )
-                 + " " + std::to_string( st.time_since_last_event().usec() ) + " " + recorded_skip< state_t >( st );
-        }
-
-        std::string op( const std::vector< std::string >& w ) override
-        {
-            if ( w[ 0 ] == "reset" ) { st.reset_connection_state(); return show( "-" ); }
-            if ( w[ 0 ] == "plan" )
+            int ret = -1;
+            switch ( p.kind )
             {
-                ll::connection_event_events ev;
-                const std::string& f = w.at( 2 );
-                ev.unacknowledged_data         = f.at( 0 ) == '1';
-                ev.last_received_not_empty     = f.at( 1 ) == '1';
-                ev.last_transmitted_not_empty  = f.at( 2 ) == '1';
-                ev.last_received_had_more_data = f.at( 3 ) == '1';
-                ev.pending_outgoing_data       = f.at( 4 ) == '1';
-                ev.error_occured               = f.at( 5 ) == '1';
-                st.plan_next_connection_event( u16( w.at( 1 ) ), ev, ll::delta_time( u32( w.at( 3 ) ) ),
-                    std::pair< bool, std::uint16_t >( w.at( 4 ) == "1", u16( w.at( 5 ) ) ) );
-                return show( "-" );
+            case parsed_op::reset: st.reset_connection_state(); break;
+            case parsed_op::plan:
+                {
+                    ll::connection_event_events ev;
+                    ev.unacknowledged_data         = p.ev[ 0 ];
+                    ev.last_received_not_empty     = p.ev[ 1 ];
+                    ev.last_transmitted_not_empty  = p.ev[ 2 ];
+                    ev.last_received_had_more_data = p.ev[ 3 ];
+                    ev.pending_outgoing_data       = p.ev[ 4 ];
+                    ev.error_occured               = p.ev[ 5 ];
+                    st.plan_next_connection_event( p.lat, ev, ll::delta_time( p.iv ), std::pair< bool, std::uint16_t >( p.flag, p.instant ) );
+                }
+                break;
+            case parsed_op::tmo: st.plan_next_connection_event_after_timeout( ll::delta_time( p.iv ) ); break;
+            case parsed_op::resched:
+                {
+                    scripted_radio radio{ { p.flag, ll::delta_time( p.t ) } };
+                    ret = st.reschedule_on_pending_data( radio, ll::delta_time( p.iv ) ) ? 1 : 0;
+                }
+                break;
+            case parsed_op::move: st.peripheral_latency_move_connection_event( static_cast< int >( p.n ), ll::delta_time( p.iv ) ); break;
+            case parsed_op::change: change_op< Config >::go( st, p.n ); break;
+            default: break;
             }
-            if ( w[ 0 ] == "tmo" ) { st.plan_next_connection_event_after_timeout( ll::delta_time( u32( w.at( 1 ) ) ) ); return show( "-" ); }
-            if ( w[ 0 ] == "resched" )
-            {
-                scripted_radio radio{ { w.at( 1 ) == "1", ll::delta_time( u32( w.at( 2 ) ) ) } };
-                const bool r = st.reschedule_on_pending_data( radio, ll::delta_time( u32( w.at( 3 ) ) ) );
-                return show( r ? "1" : "0" );
-            }
-            if ( w[ 0 ] == "move" )
-            {
-                st.peripheral_latency_move_connection_event( static_cast< int >( std::stol( w.at( 1 ) ) ), ll::delta_time( u32( w.at( 2 ) ) ) );
-                return show( "-" );
-            }
-            if ( w[ 0 ] == "change" ) { change_op< Config >::go( st, std::stol( w.at( 1 ) ) ); return show( "-" ); }
-            return "BADOP";
+            return snapshot{ ret, st.connection_event_counter(), st.current_channel_index(), st.time_since_last_event().usec(), recorded_skip< state_t >( st ) };
         }
     };
 
